@@ -83,7 +83,7 @@ fn run_p<T: Sc>(p: usize, count: usize, rng: &mut StdRng, rep: &mut Report) -> V
         }
         let ev_before = log.lock().unwrap().events.len();
         let threads = pools[it % pools.len()];
-        let pool = rayon::ThreadPoolBuilder::new().num_threads(threads).build().unwrap();
+        let pool = crate::pools::pool(threads);
         let jpar = pool.install(|| par.jacobian());
         let l = log.lock().unwrap();
         events.push(json!({"ev": "JacStart", "P": p, "T": threads}));
